@@ -1,5 +1,6 @@
 import Gv.Sexp
 import Gv.Model.Gen
+import Gv.Model.Emit
 import Gv.Driver.Settings
 
 namespace Gv.Driver
@@ -148,7 +149,8 @@ def handleGen (req : Sexp) : Sexp :=
   match generate gc.conv gc.declared with
   | .ok ms =>
     let sorted := ms.mergeSort (fun a b => String.ofList a.name ≤ String.ofList b.name)
-    mkList "ok" (sorted.map methodOut)
+    let needs := Emit.methodsNeeds ms
+    mkList "ok" (sorted.map methodOut ++ [mkList "needs" [.atom (toString needs.1), mkList "wrap" (needs.2.eraseDups.map strS)]])
   | .error d => mkList "err" [.atom (diagName d)]
 
 end Gv.Driver
